@@ -39,7 +39,7 @@ package recover
 //@   ensures[C18] load_error_outcome: each Store.LoadByRecoverSelector(_) -> (_, ?e) => (e != nil && e != ErrUserNotFound) ==> (result == e && !emits Store.Save(_))
 //@
 //@ func (*Recover).StartPost
-//@   property C05 C18
+//@   property C05 C16 C18
 //@   -- a new recovery request overwrites selector, verifier and expiry with fresh ones
 //@   ensures[C05] reissue_overwrites: each Store.Save(?s) -> _ =>
 //@       (emits Rand.Read(?raw) -> ?re :: re == nil && len(raw) == 64 &&
@@ -49,3 +49,10 @@ package recover
 //@   ensures[C05] never_touches_session: !emits Sess.Put(_, _)
 //@   ensures[C18] no_panic: !panics
 //@   ensures[C18] save_error_outcome: each Store.Save(_) -> ?e => e != nil ==> (result == e && !emits Mail.Send(_) && !emits Redirect(_))
+//@   -- C16(b): every redirect StartPost answers with is the same fixed one, whether the account
+//@   -- exists or not, and it never touches the session or cookies
+//@   ensures[C16] recover_same: (each Redirect(?ro) => ro.Code == 307 && ro.RedirectPath == r.Config.Paths.RecoverOK &&
+//@           ro.Success == loc(r.Authboss, TxtRecoverInitiateSuccessFlash) && ro.Failure == "" && ro.FollowRedirParam == false) &&
+//@       !emits Sess.Put(_, _) && !emits Sess.Del(_) && !emits Cook.Put(_, _) && !emits Cook.Del(_)
+//@   ensures[C16] unknown_account_fakes_success: each Store.Load(_) -> (_, ?le) => le == ErrUserNotFound ==> (after Redirect(_) && !emits Respond(_, _, _))
+//@   ensures[C16] known_account_same_answer: (result == nil && !emits Respond(_, _, _) && !(emits Fire("Before", _, _, _, _) -> (?hd, _) :: hd)) ==> emits Redirect(_)
